@@ -134,7 +134,7 @@ def eval_lane(e, i, v, cin, cout, nodes):
     if k == "leaf":
         return v
     if k == "const":
-        return lane_of_int(e[1], i)
+        return (e[1] >> (8 * i)) & 0xFF
     if k == "not":
         return (~eval_lane(e[1], i, v, cin, cout, nodes)) & 0xFF
     a = eval_lane(e[1], i, v, cin, cout, nodes)
@@ -157,17 +157,51 @@ def eval_lane(e, i, v, cin, cout, nodes):
     raise Unanalysable("SWAR node %s" % k)
 
 
+def norm_expr(e):
+    """Expression with the leaf's lanes erased (cache key independent of cell identities)."""
+    k = e[0]
+    if k == "leaf":
+        return ("leaf",)
+    if k == "const":
+        return e
+    if k == "not":
+        return ("not", norm_expr(e[1]))
+    return (k, norm_expr(e[1]), norm_expr(e[2]))
+
+
+_LANE_CACHE = {}
+
+
+def lane_table(ne, nodes, i, cin):
+    """For normalised expression ne at lane i with incoming carries cin: tuple over v in 0..255
+    of (byte, carries_out)."""
+    key = (ne, nodes, i, cin)
+    t = _LANE_CACHE.get(key)
+    if t is None:
+        out = []
+        nl = list(nodes)
+        for v in range(256):
+            cout = list(cin)
+            b = eval_lane(ne, i, v, cin, cout, nl)
+            out.append((b, tuple(cout)))
+        t = tuple(out)
+        _LANE_CACHE[key] = t
+    return t
+
+
 def solve(m, st, leaf, facts):
     """facts: list of (expr, lane|'all', const, truth).  Returns None if infeasible, else the
     per-lane projections (list of masks for cell lanes, None for constant lanes)."""
     lanes_ = leaf[1]
     n = len(lanes_)
+    nfacts = [(norm_expr(f[0]), f[1], f[2], f[3]) for f in facts]
     nodes = []
-    for f in facts:
+    for f in nfacts:
         carry_nodes(f[0], nodes)
-    allf = [f for f in facts if f[1] == "all"]
+    nodes_t = tuple(nodes)
+    allf = [f for f in nfacts if f[1] == "all"]
     lanef = {}
-    for f in facts:
+    for f in nfacts:
         if f[1] != "all":
             lanef.setdefault(f[1], []).append(f)
     dom = []
@@ -177,41 +211,44 @@ def solve(m, st, leaf, facts):
         else:
             tab = TABLES.get(lv[2])
             dom.append(sorted(set(tab[b] & 0xFF for b in mask_vals(st.cells[lv[1]]))))
-    # forward
+    # every carry node must be advanced at every lane: evaluate the node expressions themselves
     init = (tuple(0 for _ in nodes), tuple(True for _ in allf))
     layers = [{init}]
-    trans = []  # per lane: list of (state, v, nstate)
+    trans = []
     for i in range(n):
         nxt = set()
         tr = []
+        by_cin = {}
         for s in layers[i]:
-            cin, flags = s
+            by_cin.setdefault(s[0], []).append(s)
+        for cin, states in by_cin.items():
+            node_tabs = [lane_table(e, nodes_t, i, cin) for e in nodes]
+            lane_tabs = [(lane_table(f[0], nodes_t, i, cin), f[2], f[3]) for f in lanef.get(i, ())]
+            all_tabs = [(lane_table(f[0], nodes_t, i, cin), lane_of_int(f[2], i)) for f in allf]
             for v in dom[i]:
-                cout = list(cin)
                 ok = True
-                for f in lanef.get(i, ()):
-                    byte = eval_lane(f[0], i, v, cin, cout, nodes)
-                    if (byte == f[2]) != f[3]:
+                for tab, cst, truth in lane_tabs:
+                    if (tab[v][0] == cst) != truth:
                         ok = False
                         break
                 if not ok:
                     continue
-                nf = []
-                for j, f in enumerate(allf):
-                    byte = eval_lane(f[0], i, v, cin, cout, nodes)
-                    nf.append(flags[j] and byte == lane_of_int(f[2], i))
-                # make sure every carry node was evaluated (also those only under lane facts of other lanes)
-                for e in nodes:
-                    eval_lane(e, i, v, cin, cout, nodes)
-                ns = (tuple(cout), tuple(nf))
-                nxt.add(ns)
-                tr.append((s, v, ns))
+                cout = list(cin)
+                for ni, tab in enumerate(node_tabs):
+                    cout[ni] = tab[v][1][ni]
+                cout = tuple(cout)
+                eqs = [tab[v][0] == cb for tab, cb in all_tabs]
+                for s in states:
+                    flags = s[1]
+                    nf = tuple(flags[j] and eqs[j] for j in range(len(allf)))
+                    ns = (cout, nf)
+                    nxt.add(ns)
+                    tr.append((s, v, ns))
         layers.append(nxt)
         trans.append(tr)
     final = {s for s in layers[n] if all(s[1][j] == f[3] for j, f in enumerate(allf))}
     if not final:
         return None
-    # backward
     good = [None] * (n + 1)
     good[n] = final
     for i in range(n - 1, -1, -1):
